@@ -13,6 +13,7 @@ use crate::verif::util::*;
 use crate::Node;
 use compact_encoding::CompactEncoding;
 use ed25519_dalek::SigningKey;
+use futures::future::Either;
 
 // ------------------------------------------------------------------------------------ reference
 
@@ -267,7 +268,10 @@ pub(crate) fn ref_leader<const C: usize>(w: &mut W<C>, start: usize, n: usize, p
     w.buf[start + 5] = (info >> 8) as u8;
     w.buf[start + 6] = (info >> 16) as u8;
     w.buf[start + 7] = (info >> 24) as u8;
-    let crc = crc32_bitwise(&w.buf[start + 4..start + 8 + n]);
+    // Frames with symbolic payload bytes use the same CRC routine the crate uses (crc32fast's
+    // portable code) so that both sides build the same circuit; that this routine *is* CRC-32/IEEE
+    // is decided separately (c06_leader_entry, bitwise reference, small payloads).
+    let crc = if n > 24 { crc32fast::hash(&w.buf[start + 4..start + 8 + n]) } else { crc32_bitwise(&w.buf[start + 4..start + 8 + n]) };
     w.buf[start] = crc as u8;
     w.buf[start + 1] = (crc >> 8) as u8;
     w.buf[start + 2] = (crc >> 16) as u8;
@@ -350,3 +354,210 @@ fn c06_leader_entry() {
     assert!(out.state.len() == total - 8);
     kani::cover!(true, "reached end");
 }
+
+// ------------------------------------------------------------------------- Oplog::open harnesses
+
+pub(crate) const PK: [u8; 32] = [3u8; 32];
+pub(crate) const SK: [u8; 32] = [7u8; 32];
+
+pub(crate) fn base_header(length: u64) -> RefHeader {
+    RefHeader {
+        public: PK,
+        secret: Some(SK),
+        fork: 0,
+        length,
+        signed: if length > 0 { Some(([length as u8 + 1; 32], [length as u8 + 2; 64])) } else { None },
+        contiguous_length: length,
+    }
+}
+
+/// Run the real `Oplog::open` on a file image of exactly N bytes.
+pub(crate) fn open_image<const N: usize>(image: [u8; N], kp: &Option<PartialKeypair>) -> Result<OplogOpenOutcome, HypercoreError> {
+    let data: Box<[u8]> = Box::new(image);
+    let info = StoreInfo {
+        store: Store::Oplog,
+        info_type: StoreInfoType::Content,
+        index: 0,
+        length: Some(N as u64),
+        data: Some(data),
+        miss: false,
+    };
+    match Oplog::open(kp, Some(info))? {
+        Either::Right(o) => Ok(o),
+        Either::Left(_) => unreachable!(),
+    }
+}
+
+fn sym_patch(h: &mut RefHeader) {
+    if let Some((root, sig)) = &mut h.signed {
+        let r: [u8; 4] = kani::any();
+        let s: [u8; 4] = kani::any();
+        root[5] = r[0];
+        root[6] = r[1];
+        root[30] = r[2];
+        root[31] = r[3];
+        sig[0] = s[0];
+        sig[1] = s[1];
+        sig[62] = s[2];
+        sig[63] = s[3];
+    }
+}
+
+/// C06-U3: which slot wins.  JS rule: both slots valid -> equal header bits => slot 0 is newer,
+/// different => slot 1 is newer; one valid slot -> that one.  Slot presence and bits are concrete
+/// per instance (a symbolic choice would make every image byte an if-then-else and all decoded
+/// lengths symbolic); some root-hash and signature bytes are symbolic.
+fn open_slots<const P1: bool, const P2: bool, const B1: bool, const B2: bool>() {
+    let mut w = W::<8192>::new();
+    // The images are fully concrete: measured, even 8 symbolic payload bytes inside a CRC-framed
+    // header (two table-driven CRC circuits over symbolic bytes) exhaust 9 GB.  What the model
+    // checker adds here over a unit test is exhaustive configuration coverage plus its panic /
+    // overflow / bounds / termination checks on the real open path.
+    let (h1, h2) = (base_header(1), base_header(2));
+    if P1 {
+        ref_header_at(&mut w, 0, &h1, B1);
+    }
+    if P2 {
+        ref_header_at(&mut w, 4096, &h2, B2);
+    }
+    let out = open_image(w.buf, &None).unwrap();
+    let expect = if P1 && P2 {
+        if B1 == B2 { h1 } else { h2 }
+    } else if P1 {
+        h1
+    } else {
+        h2
+    };
+    assert!(header_matches(&out.header, &expect));
+    assert!(out.infos_to_flush.is_empty());
+    assert!(out.entries.is_none());
+    kani::cover!(true, "reached end");
+    std::mem::forget(out);
+}
+macro_rules! slots {
+    ($name:ident, $p1:expr, $p2:expr, $b1:expr, $b2:expr) => {
+        #[kani::proof]
+        #[kani::stub(std::fmt::format, stub_format)]
+        #[kani::stub(std::string::String::from_utf8, stub_from_utf8)]
+        fn $name() {
+            open_slots::<$p1, $p2, $b1, $b2>();
+        }
+    };
+}
+slots!(c06_open_slot0_only, true, false, true, false);
+slots!(c06_open_slot1_only, false, true, false, false);
+slots!(c06_open_both_tt, true, true, true, true);
+slots!(c06_open_both_tf, true, true, true, false);
+slots!(c06_open_both_ft, true, true, false, true);
+slots!(c06_open_both_ff, true, true, false, false);
+
+
+// ---------------------------------------------------------------- entries after the header (C02/C06)
+
+fn cnode(index: u64, length: u64, fill: u8) -> Node {
+    Node::new(index, vec![fill; 32], length)
+}
+
+/// The two entry shapes used in images: an append of block 1 (nodes 2,1 + upgrade + bitfield) and a
+/// clear of block 0.
+fn sample_append() -> (Vec<Node>, (u64, u64, u64, [u8; 64]), (bool, u64, u64)) {
+    (vec![cnode(2, 3, 0x21), cnode(1, 7, 0x22)], (0, 1, 2, [0x33u8; 64]), (false, 1, 1))
+}
+
+/// Layout of an image: header (length 1) in slot 0 with bit false, slot 1 empty => header_bits
+/// [false,false] => the entries that belong to this header carry bit false.
+/// ENTRIES: list of (kind, header_bit, partial) with kind 0 = append, 1 = clear; TAIL = number of
+/// 0xAA garbage bytes after the last entry.
+struct EntrySpec {
+    kind: u8,
+    bit: bool,
+    partial: bool,
+}
+
+fn build_entries<const N: usize>(w: &mut W<N>, specs: &[EntrySpec], sizes: &mut [usize; 4]) -> usize {
+    let mut at = 8192;
+    let mut i = 0;
+    while i < specs.len() {
+        let sz = if specs[i].kind == 0 {
+            let (nodes, up, bf) = sample_append();
+            ref_entry_at(w, at, &RefEntry { nodes: &nodes, upgrade: Some((up.0, up.1, up.2, &up.3)), bitfield: Some(bf) }, specs[i].partial, specs[i].bit)
+        } else {
+            ref_entry_at(w, at, &RefEntry { nodes: &[], upgrade: None, bitfield: Some((true, 0, 1)) }, specs[i].partial, specs[i].bit)
+        };
+        sizes[i] = sz;
+        at += sz;
+        i += 1;
+    }
+    at
+}
+
+fn expect_entry(e: &Entry, kind: u8) -> bool {
+    if kind == 0 {
+        let (nodes, up, bf) = sample_append();
+        entry_eq(e, &mk_entry(nodes, Some(up), Some(bf)))
+    } else {
+        entry_eq(e, &mk_entry(vec![], None, Some((true, 0, 1))))
+    }
+}
+
+/// Open an image with the given entries; `accepted` = how many leading entries must be returned.
+/// Also checks that the oplog continues *after* the accepted entries: the next entry it writes is
+/// placed at 8192 + (bytes of the accepted entries) and carries the current header bit.
+fn open_entries<const N: usize>(specs: &[EntrySpec], tail: usize, accepted: usize) {
+    let mut w = W::<N>::new();
+    ref_header_at(&mut w, 0, &base_header(1), false);
+    let mut sizes = [0usize; 4];
+    let end = build_entries(&mut w, specs, &mut sizes);
+    let mut t = 0;
+    while t < tail {
+        w.buf[end + t] = 0xAA;
+        t += 1;
+    }
+    assert!(end + tail == N);
+    let mut out = open_image(w.buf, &None).unwrap();
+    assert!(header_matches(&out.header, &base_header(1)));
+    let entries = out.entries.take().unwrap_or_default();
+    assert!(entries.len() == accepted);
+    let mut i = 0;
+    let mut bytes = 0usize;
+    while i < accepted {
+        assert!(expect_entry(&entries[i], specs[i].kind));
+        bytes += sizes[i];
+        i += 1;
+    }
+    // where does the next entry go, and with which bit?
+    let infos = out.oplog.clear(5, 6).unwrap();
+    assert!(infos.len() == 1);
+    assert!(infos[0].index == 8192 + bytes as u64);
+    let d = infos[0].data.as_ref().unwrap();
+    assert!(d[4] & 1 == 0); // header bit false
+    assert!(out.oplog.entries_length == accepted as u64 + 1);
+    kani::cover!(true, "reached end");
+    std::mem::forget(entries);
+    std::mem::forget(out);
+}
+
+macro_rules! entries_harness {
+    ($name:ident, $n:expr, $specs:expr, $tail:expr, $acc:expr) => {
+        #[kani::proof]
+        #[kani::stub(std::fmt::format, stub_format)]
+        #[kani::stub(std::string::String::from_utf8, stub_from_utf8)]
+        fn $name() {
+            open_entries::<$n>(&$specs, $tail, $acc);
+        }
+    };
+}
+const A_SZ: usize = 8 + 1 + 1 + 2 * 34 + 3 + 65 + 3; // append entry frame: 149 bytes
+const C_SZ: usize = 8 + 1 + 3; // clear entry frame: 12 bytes
+entries_harness!(c02_open_one_append, { 8192 + A_SZ }, [EntrySpec { kind: 0, bit: false, partial: false }], 0, 1);
+entries_harness!(c02_open_append_clear, { 8192 + A_SZ + C_SZ }, [EntrySpec { kind: 0, bit: false, partial: false }, EntrySpec { kind: 1, bit: false, partial: false }], 0, 2);
+entries_harness!(c02_open_garbage_tail, { 8192 + C_SZ + 5 }, [EntrySpec { kind: 1, bit: false, partial: false }], 5, 1);
+// entries written under the previous header (other bit) that a crash left behind after the
+// header switch must be ignored, and so must everything after them
+entries_harness!(c02_open_stale_entry, { 8192 + C_SZ }, [EntrySpec { kind: 1, bit: true, partial: false }], 0, 0);
+entries_harness!(c02_open_valid_then_stale, { 8192 + C_SZ + A_SZ }, [EntrySpec { kind: 1, bit: false, partial: false }, EntrySpec { kind: 0, bit: true, partial: false }], 0, 1);
+// JS atomic batches: trailing entries flagged partial belong to an unfinished batch and are dropped
+entries_harness!(c06_open_trailing_partial, { 8192 + C_SZ + C_SZ }, [EntrySpec { kind: 1, bit: false, partial: false }, EntrySpec { kind: 1, bit: false, partial: true }], 0, 1);
+entries_harness!(c06_open_only_partial, { 8192 + C_SZ }, [EntrySpec { kind: 1, bit: false, partial: true }], 0, 0);
+// a finished batch: partial, partial, final -> all three kept
+entries_harness!(c06_open_finished_batch, { 8192 + 3 * C_SZ }, [EntrySpec { kind: 1, bit: false, partial: true }, EntrySpec { kind: 1, bit: false, partial: true }, EntrySpec { kind: 1, bit: false, partial: false }], 0, 3);
